@@ -85,7 +85,10 @@ fdprintf(const char *fmt, ...)
 	int tp;
 
 	va_list vap;
+	va_list vac;
 	va_start(vap, fmt);
+	/* a va_list can be walked only once, keep one for the second go */
+	va_copy(vac, vap);
 
 	/* try and write */
 	tp = vsnprintf(
@@ -97,8 +100,9 @@ fdprintf(const char *fmt, ...)
 		/* ... try the formatting again */
 		tp = vsnprintf(
 			fd_aux.buf + fd_aux.bi, sizeof(fd_aux.buf) - fd_aux.bi,
-			fmt, vap);
+			fmt, vac);
 	}
+	va_end(vac);
 	va_end(vap);
 
 	/* reassign and out */
